@@ -504,7 +504,7 @@ pub fn check_c16(
             }
             for (k, rq) in cp.reqs.iter().enumerate() {
                 match &obs.by_req[k] {
-                    None if idle_timeout_excuses(out, obs, k) => probe("idle_timeout_close"),
+                    None if !owed_answer(out, cp, obs, k) => probe("server_closed_between_requests"),
                     None => v.push(Violation {
                         rule: "c16.bystander".into(),
                         detail: format!(
